@@ -564,7 +564,7 @@ RECURSIVE Pad(_, _)
 Pad(op, k) == IF k = 0 THEN <<>> ELSE IF k <= 200 THEN <<PadSmall(op, k)>>
               ELSE IF k <= 242 THEN <<PadSmall(op, k - 100), PadSmall(op, 100)>>
               ELSE <<PadBig(op, k)>> \o Pad(op, k - 241)
-CffBase == [names |-> <<Str(6, 64)>>, top |-> <<DE(2, <<I(391)>>)>>, strs |-> <<Str(5, 96), Str(3, 32)>>,
+CffBase == [hdr |-> Hdr4, lay |-> 0, names |-> <<Str(6, 64)>>, top |-> <<DE(2, <<I(391)>>)>>, strs |-> <<Str(5, 96), Str(3, 32)>>,
             gs |-> <<<<1, 11>>, <<2, 3, 11>>, <<11>>>>, cs |-> <<<<14>>, <<139, 14>>, <<140, 141, 14>>>>, sids |-> <<>>,
             priv |-> <<DE(10, <<I(80)>>)>>, hasLs |-> TRUE, ls |-> <<<<4, 11>>, <<11>>>>, fds |-> <<>>, fdsel |-> <<>>]
 CffCidBase == [CffBase EXCEPT !.top = <<DE(3102, <<I(391), I(392), I(0)>>), DE(2, <<I(393)>>)>>,
@@ -593,6 +593,43 @@ CffStrN(k) ==     \* k strings; the Top DICT names SIDs on both sides of the fir
   [CffBase EXCEPT !.strs = [i \in 1 .. k |-> Str(3 + i, 40 * i)],
                   !.top = <<DE(0, <<I(390)>>), DE(2, <<I(IF k >= 1 THEN 391 ELSE 389)>>), DE(3, <<I(390 + (IF k = 0 THEN 0 ELSE k))>>),
                             DE(4, <<I(1)>>)>>]
+\* -- the header: hdrSize is a length that travels with the bytes it counts, and every offset of the table counts
+\* from the start of the header.  A source whose header is longer than the four defined fields (hdrSize 5, 6, 8,
+\* 10, the largest: 255), with skipped bytes that read as nothing, as an empty INDEX (0 0), as an INDEX with one
+\* object, as 0xFF; name-keyed and CID-keyed (the Font DICTs carry absolute offsets too); together with each of the
+\* structures the Top DICT locates by an absolute offset (charset, CharStrings, Private, FDArray, FDSelect), with
+\* the String INDEX that SIDs index, and with the Top DICT at the offSize edge of its reserved INDEX; the other
+\* header fields (minor version, offSize 1 .. 4) at their edges with and without such bytes.
+HdrPads == <<<<0>>, <<0, 0>>, <<255, 255, 255, 255>>, <<0, 1, 1, 1, 2, 65>>, Str(251, 0)>>
+WithHdr(v, minor, os, pad) == [v EXCEPT !.hdr = [minor |-> minor, offSize |-> os, pad |-> pad]]
+CfftHdrVals ==
+  Cat([i \in 1 .. Len(HdrPads) |-> <<WithHdr(CffBase, 0, 1, HdrPads[i]), WithHdr(CffCidBase, 0, 1, HdrPads[i])>>])
+  \o [os \in 1 .. 3 |-> WithHdr(CffBase, 0, os + 1, <<>>)] \o [os \in 1 .. 3 |-> WithHdr(CffCidBase, 0, os + 1, <<7, 7>>)]
+  \o <<WithHdr(CffBase, 1, 1, <<>>), WithHdr(CffBase, 255, 4, <<>>), WithHdr(CffBase, 1, 2, <<9>>), WithHdr(CffCidBase, 255, 1, <<0, 0>>)>>
+  \o Cat([i \in 1 .. 4 |-> LET L == <<253, 254, 255, 256>>[i] IN
+          <<WithHdr(CffTopOf(L), 0, 1, <<0>>), WithHdr(CffTopOf(L), 0, 1, <<0, 0>>), WithHdr(CffCidTopOf(L), 0, 1, <<0, 0, 0>>)>>])
+  \o <<WithHdr([CffBase EXCEPT !.sids = <<391, 5>>], 0, 1, <<0, 0>>), WithHdr(CffStrN(0), 0, 1, <<0, 0>>), WithHdr(CffStrN(3), 0, 1, <<0>>),
+       WithHdr([CffBase EXCEPT !.hasLs = FALSE, !.ls = <<>>], 0, 1, <<1, 2, 3>>), WithHdr([CffBase EXCEPT !.gs = <<>>], 0, 1, <<0, 0>>),
+       WithHdr([CffBase EXCEPT !.gs = Two(255, 7)], 0, 1, <<0, 0>>), WithHdr([CffCidBase EXCEPT !.fds[1].ls = Two(256, 15)], 0, 1, <<0>>)>>
+  \* thorough: every header size 5 .. 20 and 250 .. 255, both layouts, name-keyed and CID-keyed, offSize and minor version turning
+  \o (IF ~Thorough THEN <<>>
+      ELSE Cat([n \in 1 .. 22 |-> LET k == IF n <= 16 THEN n ELSE 229 + n  pad == [i \in 1 .. k |-> (n * i) % 3] IN
+             <<WithHdr(CffBase, n % 2, 1 + (n % 4), pad), WithHdr(CffCidBase, n % 3, 1 + ((n + 1) % 4), pad),
+               [WithHdr(CffBase, 0, 1, pad) EXCEPT !.lay = 1], [WithHdr(CffCidBase, 0, 1, pad) EXCEPT !.lay = 1],
+               WithHdr(CffTopOf(250 + (n % 8)), 0, 1, pad)>>]))
+
+\* -- a source laid out differently (EncCff, lay = 1: Private DICTs before charset before CharStrings, Font DICT INDEX
+\* first, unreferenced bytes between the structures): every kind of structure a DICT locates, the sizes of the
+\* two-pass writer, also behind a long header
+WithLay(v) == [v EXCEPT !.lay = 1]
+CfftLayVals ==
+  <<WithLay(CffBase), WithLay(CffCidBase), WithLay([CffBase EXCEPT !.sids = <<391, 5>>]), WithLay([CffBase EXCEPT !.hasLs = FALSE, !.ls = <<>>]),
+    WithLay([CffBase EXCEPT !.ls = <<>>]), WithLay([CffBase EXCEPT !.gs = <<>>]), WithLay(CffStrN(3)),
+    WithLay(CffTopOf(254)), WithLay(CffTopOf(255)), WithLay(CffCidTopOf(255)), WithLay(CffCidTopOf(256)),
+    WithLay(CffPrivOf(255, TRUE)), WithLay(CffPrivOf(256, FALSE)), WithLay(CffFdOf(255, 1)), WithLay(CffFdOf(240, 2)),
+    WithLay([CffBase EXCEPT !.ls = Two(255, 9)]), WithLay([CffBase EXCEPT !.cs = Two(256, 11)]), WithLay([CffCidBase EXCEPT !.fds[1].ls = Two(255, 15)]),
+    WithLay(WithHdr(CffBase, 0, 1, <<0, 0>>)), WithLay(WithHdr(CffCidBase, 1, 2, <<0>>)), WithLay(WithHdr([CffBase EXCEPT !.sids = <<391, 5>>], 0, 1, Str(251, 0)))>>
+
 CfftVals ==
   <<CffBase, CffCidBase, [CffBase EXCEPT !.sids = <<391, 5>>], [CffBase EXCEPT !.hasLs = FALSE, !.ls = <<>>],
     [CffBase EXCEPT !.ls = <<>>], [CffBase EXCEPT !.gs = <<>>], [CffBase EXCEPT !.strs = <<>>, !.top = <<DE(2, <<I(390)>>)>>]>>
@@ -612,6 +649,7 @@ CfftVals ==
         \o (IF Thorough THEN <<[CffBase EXCEPT !.ls = Two(n, 9)], [CffBase EXCEPT !.cs = Two(n, 11)],
                                 [CffCidBase EXCEPT !.fds[1].ls = Two(n, 15)]>> ELSE <<>>)])
   \o <<[CffBase EXCEPT !.names = <<Str(254, 1)>>], [CffBase EXCEPT !.names = <<Str(255, 1)>>]>>
+  \o CfftHdrVals \o CfftLayVals
 \* what the driver classifies (sizes, computed here, not in the harness)
 CfftSizes(v) ==
   [top |-> TopDictLen(v), cid |-> v.fds # <<>>,
@@ -622,7 +660,11 @@ CfftSizes(v) ==
    sids |-> MapS(SelectSeq(v.top, LAMBDA e : e.op \in SidOps), LAMBDA e : e.args[1].v),
    data |-> [names |-> IndexData(v.names), strs |-> IndexData(v.strs), gs |-> IndexData(v.gs), cs |-> IndexData(v.cs),
              ls |-> IF v.fds = <<>> THEN IndexData(v.ls) ELSE IndexData(v.fds[1].ls)],
-   charset |-> IF v.sids = <<>> THEN "predefined" ELSE "format0"]
+   charset |-> IF v.sids = <<>> THEN "predefined" ELSE "format0",
+   lay |-> v.lay,
+   hdr |-> [size |-> HdrLen(v.hdr), minor |-> v.hdr.minor, offSize |-> v.hdr.offSize,
+            pad |-> IF v.hdr.pad = <<>> THEN "none" ELSE IF Len(v.hdr.pad) >= 2 /\ v.hdr.pad[1] = 0 /\ v.hdr.pad[2] = 0 THEN "reads-as-empty-index"
+                    ELSE IF \A i \in 1 .. Len(v.hdr.pad) : v.hdr.pad[i] = 0 THEN "zero" ELSE "other"]]
 
 ---------------------------------------------------------------------------
 Kinds == <<"head", "hhea", "maxp", "hmtx", "cvt", "loca", "os2", "post", "name", "cmapsub", "cmap", "glyph", "glyphp",
@@ -771,6 +813,18 @@ OtherOK ==
                         /\ IsBytes(bs) /\ d.ok /\ CffEq(d.v, V)
                         /\ d.topLen = TopDictLen(V) /\ d.topOffSize = MinOffSize(TopDictLen(V) + 1)
                         /\ CffFacts(d.v) = CffFacts(V)
+                        \* the header: read back in full; without the skipped bytes the same table, every offset smaller by their number
+                        /\ HdrOk(V.hdr) /\ d.v.hdr = V.hdr /\ HdrWrittenOk(V.hdr, V.hdr) /\ HdrWrittenOk(V.hdr, NormHdr(V.hdr))
+                        \* Dev_CffLayout: the other layout of the same value is read as the same value, and is longer by its gaps
+                        /\ (V.lay = 1 => LET ob == EncCff([V EXCEPT !.lay = 0])  od == DecCff(ob) IN
+                                         /\ od.ok /\ CffEq(od.v, d.v) /\ CffFacts(od.v) = CffFacts(d.v) /\ ob # bs
+                                         /\ Len(bs) = Len(ob) + 3 * (IF V.fds = <<>> THEN 4 ELSE 6))
+                        /\ (V.hdr.pad # <<>> =>
+                              LET nv == [V EXCEPT !.hdr = NormHdr(@)]  nb == EncCff(nv)  nd == DecCff(nb) IN
+                              /\ ~HdrWrittenOk(V.hdr, [V.hdr EXCEPT !.pad = <<0>> \o @])
+                              /\ Len(nb) = Len(bs) - Len(V.hdr.pad) /\ nb[3] = 4 /\ nd.ok /\ CffEq(nd.v, V) /\ nd.v.hdr.pad = <<>>
+                              \* announcing the skipped bytes without writing them does not give the table back
+                              /\ LET bad == DecCff([nb EXCEPT ![3] = bs[3]]) IN ~bad.ok \/ ~CffEq(bad.v, V))
                         /\ DictOk(V.top) /\ DictOk(V.priv) /\ \A i \in 1 .. Len(V.fds) : DictOk(V.fds[i].fd) /\ DictOk(V.fds[i].priv)
 
 \* a glyph in a foreign packing: in format, packed as its flags say, of the size the fields add up to, and
